@@ -1898,19 +1898,22 @@ OP_ROL = "<<<"
 
 def ror(x, n):
     "high-level rotate right n bits"
-    if x._is_cst:
-        return x >> n | x << (x.size - n)
     if isinstance(n, int):
         n = cst(n, x.size)
+    if x._is_cst and n._is_cst:
+        # the amount may be narrower than log2(x.size) bits: compute with integers
+        m = n.v % x.size
+        return x >> m | x << (x.size - m)
     return op(OP_ROR, x, n)
 
 
 def rol(x, n):
     "high-level rotate left n bits"
-    if x._is_cst:
-        return x << n | x >> (x.size - n)
     if isinstance(n, int):
         n = cst(n, x.size)
+    if x._is_cst and n._is_cst:
+        m = n.v % x.size
+        return x << m | x >> (x.size - m)
     return op(OP_ROL, x, n)
 
 
